@@ -20,8 +20,15 @@ def run_prop(prop, extra_parts=(), post=None):
         defaults.update(cfg.get("thorough_defaults", {}))
     results, stats = runner.run_cases(run, cases, defaults)
     samples = []
-    for c in cases[:3]:
+    for c in cases:
+        if len(samples) >= 4:
+            break
         from .gen import program_src
+
+        if c.get("kind") in ("kernel", "kernel2"):
+            if not any("kernel" in x for x in samples):
+                samples.append({"case": c["id"], "kernel": c.get("kernel") or "ConstantFolder.extract_constant_int", "operator": c.get("op") or c.get("pair"), "query": "exists a,b in int32: folded value in int32 and != run-time value (per sign region)"})
+            continue
 
         st = c.get("stmts") or (c.get("pairs") or [{}])[0].get("a", {}).get("stmts")
         if st:
